@@ -12,6 +12,11 @@
              Output: <id> ok vals=<addr> out=<hex c06_out> outs=<hex>
    mode gcc: no MIR: a gcc-compiled caller from the generated table calls the assembly probe (validates
              the SysV model against the platform compiler).  Output like c05.
+   mode c2m: (harness variant built with -DC05_C2M and the c2mir unit) <mirhex> is C SOURCE text, compiled by
+             c2mir into the context.  target probe / callee<k>: the c2m-compiled `caller` reads its argument
+             values from c05_vals and calls `probe` (assembly probe or gcc-compiled callee) through its C
+             prototype; output as mode c05.  target gcaller<k>: the gcc-compiled caller calls the c2m-compiled
+             function `callee` through its public address; output as mode c06.
    engine: interp | gen0..gen3 | lazy.   Each case runs in a forked child; a crash or a MIR error is
    reported as "<id> crash sig=<n>" / "<id> error <text>".  */
 #define _GNU_SOURCE
@@ -26,6 +31,20 @@
 #include <sys/mman.h>
 #include "mir.h"
 #include "mir-gen.h"
+#ifdef C05_C2M
+#include "c2mir/c2mir.h"
+struct c05_src {
+  const char *s;
+  size_t pos;
+};
+static int c05_src_getc (void *d) {
+  struct c05_src *sd = d;
+  int c = (unsigned char) sd->s[sd->pos];
+  if (c == 0) return EOF;
+  sd->pos++;
+  return c;
+}
+#endif
 
 #define NSTK 1024
 #define VALS_SIZE 16384
@@ -155,17 +174,48 @@ static void run_case (char *id, char *mode, char *engine, char *target, char *mi
   text[n] = 0;
   MIR_context_t ctx = MIR_init ();
   MIR_set_error_func (ctx, err_func);
-  MIR_scan_string (ctx, text);
+  int c2m = strcmp (mode, "c2m") == 0;
+  if (c2m) {
+#ifdef C05_C2M
+    struct c2mir_options ops;
+    struct c05_src sd = {text, 0};
+    char *msg = NULL;
+    size_t msg_len = 0;
+    memset (&ops, 0, sizeof (ops));
+    ops.message_file = open_memstream (&msg, &msg_len);
+    ops.ignore_warnings_p = 1;
+    c2mir_init (ctx);
+    int ok = c2mir_compile (ctx, &ops, c05_src_getc, &sd, "case.c", NULL);
+    c2mir_finish (ctx);
+    fflush (ops.message_file);
+    if (!ok) {
+      for (char *q = msg; q != NULL && *q; q++)
+        if (*q == '\n' || *q == ' ') *q = '_';
+      printf ("%s error c2mir-rejects:%.300s\n", id, msg != NULL ? msg : "");
+      return;
+    }
+#else
+    printf ("%s error harness-built-without-c2mir\n", id);
+    return;
+#endif
+  } else {
+    MIR_scan_string (ctx, text);
+  }
   for (MIR_module_t m = DLIST_HEAD (MIR_module_t, *MIR_get_module_list (ctx)); m != NULL;
        m = DLIST_NEXT (MIR_module_t, m))
     MIR_load_module (ctx, m);
   void *tgt = strcmp (target, "probe") == 0 ? (void *) c05_probe : gen_lookup (target);
-  int c06 = strcmp (mode, "c06") == 0;
+  int c06 = strcmp (mode, "c06") == 0 || (c2m && strncmp (target, "gcaller", 7) == 0);
   if (tgt == NULL && !c06) {
     printf ("%s error no-such-target:%s\n", id, target);
     return;
   }
   MIR_load_external (ctx, "probe", tgt != NULL && !c06 ? tgt : (void *) c05_probe);
+  MIR_load_external (ctx, "c05_vals", &c05_vals);
+  MIR_load_external (ctx, "c05_seen", &c05_seen);
+  MIR_load_external (ctx, "c05_outs", &c05_outs);
+  MIR_load_external (ctx, "c05_ret", c05_ret);
+  MIR_load_external (ctx, "memcpy", memcpy);
   MIR_load_external (ctx, "vals", c05_vals);
   MIR_load_external (ctx, "outs", c05_outs);
   MIR_load_external (ctx, "helper", c06_helper);
@@ -184,7 +234,7 @@ static void run_case (char *id, char *mode, char *engine, char *target, char *mi
       MIR_gen_set_debug_level (ctx, 2);
     }
   }
-  MIR_item_t f = find_func (ctx, c06 ? "f" : "caller");
+  MIR_item_t f = find_func (ctx, c06 ? (c2m ? "callee" : "f") : "caller");
   if (f == NULL) {
     printf ("%s error no-entry-function\n", id);
     return;
@@ -244,6 +294,7 @@ static void run_case (char *id, char *mode, char *engine, char *target, char *mi
         printf ("%s error no-such-generated-function:%s\n", id, target);
         return;
       }
+      if (c2m) unhex (iohex, c05_ret, sizeof (c05_ret));
       g (addr);
     } else {
       if (strncmp (target, "tramp", 5) == 0 && target[5] != 0) reps = atoi (target + 5);
@@ -277,6 +328,10 @@ static void run_case (char *id, char *mode, char *engine, char *target, char *mi
     puthex (stdout, c05_outs, 2048);
     printf (" pimg=");
     puthex (stdout, c05_img, 256);
+    if (getenv ("C06_PSTK") != NULL) { /* the stack arguments the probe saw in a call made by the MIR function */
+      printf (" pstk=");
+      puthex (stdout, c05_img + 256, NSTK);
+    }
     printf (" seen=");
     puthex (stdout, c05_seen, 2304);
     if (dump_f != NULL) { /* the generator's own listing of the function after prologue/epilogue insertion */
